@@ -159,6 +159,48 @@ UnparseItem(p, sp) ==
       [] OTHER -> WithSibling(<<DPair(KeyOfKind(p.k), DList([n \in DOMAIN p.kids |-> UnparseItem(p.kids[n], sp)]))>>, p)
 Unparse(P, sp) == DList([n \in DOMAIN P.kids |-> UnparseItem(P.kids[n], sp)])
 
+(***************************************************************************)
+(* A listing on which a pattern is meant to be found (used where two rules  *)
+(* have to be compared behaviourally: it guarantees that the comparison     *)
+(* includes an input on which the reference rule matches).  Best effort:    *)
+(* first alternative, written order, the lower repetition bound (at least   *)
+(* once), a foreign instruction / operand for $not.                          *)
+(***************************************************************************)
+RECURSIVE WitO(_), WitOSeq(_), WitI(_), WitISeq(_), RepSeq(_, _)
+RepSeq(s, n) == IF n <= 0 THEN <<>> ELSE s \o RepSeq(s, n - 1)
+WitField(fp, isReg, isScale) ==
+    LET n == IF fp.k = "for" THEN fp.kids[1].name ELSE IF fp.k = "flit" THEN fp.name ELSE IF isReg THEN "%rdx" ELSE "0x20" IN
+    IF isReg THEN (IF IsPrefixStr("%", n) THEN n ELSE "%" \o n)
+    ELSE IF isScale \/ IsPrefixStr("0x", n) \/ IsPrefixStr("-", n) THEN n ELSE "0x" \o n
+WitDeref(d) ==
+    LET has(f) == FieldOf(d, f).k # "none" IN
+    "[" \o WitField(FieldOf(d, "main_reg"), TRUE, FALSE)
+        \o (IF has("register_multiplier") THEN "+" \o WitField(FieldOf(d, "register_multiplier"), TRUE, FALSE)
+                  \o "*" \o (IF has("constant_multiplier") THEN WitField(FieldOf(d, "constant_multiplier"), FALSE, TRUE) ELSE "1") ELSE "")
+        \o (IF has("constant_offset") THEN "+" \o WitField(FieldOf(d, "constant_offset"), FALSE, FALSE) ELSE "") \o "]"
+WitO(q) ==
+    LET once == CASE q.k = "lit" -> <<q.name>>
+                  [] q.k \in {"oand", "operm"} -> WitOSeq(q.kids)
+                  [] q.k = "oor" -> WitO(q.kids[1])
+                  [] q.k = "onot" -> <<"zz">>
+                  [] q.k = "ocap" -> <<"%c_" \o q.name>>
+                  [] q.k = "rcap" -> <<"%" \o RegName(q.fam, CHOOSE r \in FamRegs(q.fam) : TRUE, IF q.w = "" THEN "64" ELSE q.w)>>
+                  [] q.k = "deref" -> <<WitDeref(q)>>
+                  [] OTHER -> <<>>
+    IN RepSeq(once, IF q.lo = 0 /\ q.hi > 0 THEN 1 ELSE q.lo)
+WitOSeq(qs) == IF qs = <<>> THEN <<>> ELSE WitO(Head(qs)) \o WitOSeq(Tail(qs))
+WitI(p) ==
+    LET once == CASE p.k = "ins" -> << <<p.name, WitOSeq(p.kids)>> >>
+                  [] p.k \in {"and", "perm"} -> WitISeq(p.kids)
+                  [] p.k = "or" -> WitI(p.kids[1])
+                  [] p.k = "not" -> << <<"zzz", <<>> >> >>
+                  [] p.k = "icap" -> << <<"cap" \o p.name, <<"%r9">> >> >>
+                  [] OTHER -> <<>>
+    IN RepSeq(once, IF p.lo = 0 /\ p.hi > 0 THEN 1 ELSE p.lo)
+WitISeq(ps) == IF ps = <<>> THEN <<>> ELSE WitI(Head(ps)) \o WitISeq(Tail(ps))
+\* addresses 1000, 1004, ...
+Witness(P) == LET b == WitI(P) IN [n \in DOMAIN b |-> Ins("10" \o ToString(10 + n), b[n][1], b[n][2])]
+
 Spellings == { [times |-> t, upper |-> u, ints |-> i] : t \in {"body", "sib"}, u \in BOOLEAN, i \in BOOLEAN }
 RoundTrip(P) == \A sp \in Spellings : Parse(Unparse(P, sp)) = P
 =============================================================================
